@@ -5,6 +5,8 @@ Unknown or malformed requests answer {"err": "..."} (never a default).
 import Driver.Util
 import Driver.ArgStore
 import Driver.Graph
+import Driver.Errors
+import Driver.Partial
 open Lean Driver
 
 def dispatch (req : Json) : R Json := do
@@ -12,6 +14,9 @@ def dispatch (req : Json) : R Json := do
   match p with
   | "argstore" => Driver.ArgStore.handle req
   | "graph" => Driver.Graph.handle req
+  | "partial" => Driver.Partial.handle req
+  | "guard" => Driver.Errors.handleGuard req
+  | "decorate" => Driver.Errors.handleDecorate req
   | _ => throw "bad-op"
 
 partial def loop (hin : IO.FS.Stream) (hout : IO.FS.Stream) : IO Unit := do
